@@ -2899,6 +2899,7 @@ mp_limb_t mpn_invert_limb(mp_limb_t) ATTRIBUTE_CONST;
     if ((r1) > (d1) || (r0) >= (d0))				\
       {								\
         (q)++;							\
+        MPIR_VERIF_HIT (MPIR_VERIF_3BY2_SECOND_ADJUST);		\
         sub_ddmmss ((r1), (r0), (r1), (r0), (d1), (d0));		\
       }								\
       }									\
